@@ -325,7 +325,15 @@ impl Interval {
         } else {
             let stride = match (self.stride, other.stride) {
                 (0, _) => other.stride,
-                (_, 0) => self.stride << other.bytesize().as_bit_length(),
+                (_, 0) => {
+                    let shift = other.bytesize().as_bit_length() as u32;
+                    if shift <= self.stride.leading_zeros() {
+                        self.stride << shift
+                    } else {
+                        // The exact stride is not representable as an u64.
+                        1
+                    }
+                }
                 _ => 1u64 << other.stride.trailing_zeros(),
             };
             Interval {
